@@ -680,7 +680,7 @@ class Diag(Linop):
                     output_n = linop(input[islc])
 
                 if self.oaxis is None:
-                    output[ostart:oend] = output_n
+                    output[ostart:oend] = output_n.ravel()
                 else:
                     ndim = len(linop.oshape)
                     axis = self.oaxis % ndim
@@ -690,7 +690,7 @@ class Diag(Linop):
                         + [slice(None)] * (ndim - axis - 1)
                     )
 
-                    output[oslc] = output_n
+                    output[oslc] = output_n.reshape(linop.oshape)
 
             return output
 
